@@ -19,11 +19,11 @@ CLAIMS = {
  "C11": dict(
   technique="runtime monitor against an exact integer model: real record life-time functions driven under a virtual clock (component), refresh/flush/expiry observed on the simulated wire (world)",
   text="Every TTL 1..600 (thorough ..3000) and large values up to u32::MAX are run through observation sequences (at the marks, +-1 ms around every boundary, skipping marks, with fresh copies) and each answer of the real record (expired, half-life, refresh due, written known-answer TTL) is compared with the model of the statement.",
-  note="TTL<=1 carries no refresh obligation. World-level part: refresh queries on the wire (L2; a quarter of the cases with host-name searches for the services' hosts open next to the browse), the cache-flush rule around the one-second boundary for A and AAAA records (other interface, other family, same burst, a record in its last second, a further flush within the second) and for TXT/SRV replaced and replaced back (L3), late wake-ups (L1).",
+  note="TTL<=1 carries no refresh obligation. World-level part: refresh queries on the wire (L2; a quarter of the cases with host-name searches for the services' hosts open next to the browse, up to four cache-only browses of other types on the same daemon), the cache-flush rule around the one-second boundary for A and AAAA records (other interface, other family, same burst, a record in its last second, a further flush within the second) and for TXT/SRV replaced and replaced back (L3), late wake-ups (L1).",
   ref="§6 C11"),
  "C16": dict(
   technique="runtime round-trip monitor: generated property lists through every input type -> ServiceInfo::new -> TXT RDATA (facade) -> independent TXT parser and the crate's public decoder, compared with the given list; end to end through a registering and a browsing daemon on one simulated link",
-  text="Generated lists (empty/oversize/non-ASCII/'='-bearing keys, binary/empty/absent values, duplicates and case variants, sizes around 255) must either be refused at creation or arrive unchanged (keys, bytes, order, none-vs-empty, first duplicate wins, case-insensitive lookup); arbitrary and damaged byte strings must decode without panic into strings that lie inside the record. End to end, thousands of accepted lists are registered on one daemon and must be reported unchanged (order, bytes, none-vs-empty, case-insensitive lookup) in the ServiceResolved of a second daemon, learned from the announcement or from the answer to its query.",
+  text="Generated lists (empty/oversize/non-ASCII/'='-bearing keys, binary/empty/absent values, duplicates and case variants, sizes around 255) must either be refused at creation or arrive unchanged (keys, bytes, order, none-vs-empty, first duplicate wins, case-insensitive lookup); arbitrary and damaged byte strings must decode without panic into strings that lie inside the record. End to end, thousands of accepted lists are registered on one daemon and must be reported unchanged (order, bytes, none-vs-empty, case-insensitive lookup) in the ServiceResolved of a second daemon, learned from the announcement or from the answer to its query; a second registration whose keys and values differ in letter case only must be reported with its own bytes.",
   note="A zero-length TXT string may be read as end-of-data or skipped. HashMap inputs holding case variants of one key are skipped (order undefined).",
   ref="§6 C16"),
  "C07": dict(
@@ -33,7 +33,7 @@ CLAIMS = {
   ref="§6 C07"),
  "C12": dict(
   technique="runtime differential monitor (same scenario woken only on request vs additionally every 10 ms) + invariant on hooked state at every loop iteration (requested wake-up <= every future due time) + idle-spin detector",
-  text="Paired lazy/eager runs of registration, search, lost-tiebreak, conflict-rename, interface-check-interval, expiry/goodbye/flush/verify/stop and follow-up scenarios: every action of the eager run must occur in the lazy run and not later (W1); at every gate of the lazy run the requested wake-up is compared with all pending due times read from a full state snapshot (W2); three idle iterations asking to be woken at or before their own time are a spin (W3).",
+  text="Paired lazy/eager runs of registration, search, lost-tiebreak, conflict-rename, interface-check-interval, expiry/goodbye/flush/verify/stop, follow-up and interface-flap-while-probing scenarios: every action of the eager run must occur in the lazy run and not later (W1); at every gate of the lazy run the requested wake-up is compared with all pending due times read from a full state snapshot (W2); three idle iterations asking to be woken at or before their own time are a spin (W3).",
   note="Constant jitter per pair (HashMap visiting order must not change who gets which jitter). The interface-check timer is a local of the run loop: covered by W1 only.",
   ref="§6 C12"),
  "C13": dict(
@@ -43,7 +43,7 @@ CLAIMS = {
   ref="§6 C13"),
  "C14": dict(
   technique="runtime monitor over enumerated command-queue positions and iteration splits of shutdown (simulated daemon behind the gate), calls injected mid-clean-up through a send hook, real-thread stress with resolved-receiver check; ThreadSanitizer and valgrind memcheck over the real-thread stress (thorough)",
-  text="Part A: shutdown at every position of every sequence of N<=1 (thorough N<=2) commands out of 20 kinds, released in one iteration or split over up to three, with 0-3 announced services and open searches (a third of the cases with four more open browses and searches whose receivers were dropped without a stop), plus sampled sequences to N=8: goodbyes once per announced service x family (X1), one final SearchStopped per open search (X2), Shutdown reported and every later call of every kind, shutdown included, refused (X3), every reply receiver ever handed out resolved or closed once the daemon thread ended (X4), no panic (X5), second shutdown harmless (X6). Part A2: 1-4 calls issued on the daemon thread at the moment the k-th goodbye datagram of a shutdown goes out (send hook): accepted calls are answered or their channel closes. Part B: hundreds (thorough: 20000) of real daemons on private ports with 2-8 racing client threads.",
+  text="Part A: shutdown at every position of every sequence of N<=1 (thorough N<=2) commands out of 20 kinds, released in one iteration or split over up to three, with 0-3 announced services and open searches (a third of the cases with four more open browses and searches whose receivers were dropped without a stop), plus sampled sequences to N=8: goodbyes once per announced service x family (X1), one final SearchStopped per open search (X2), Shutdown reported and every later call of every kind, shutdown included, refused (X3), every reply receiver ever handed out resolved or closed once the daemon thread ended (X4), no panic (X5), second shutdown harmless (X6). Part A3: a slow consumer whose browse channel is full when shutdown comes still gets its SearchStopped. Part A2: 1-4 calls issued on the daemon thread at the moment the k-th goodbye datagram of a shutdown goes out (send hook): accepted calls are answered or their channel closes. Part B: hundreds (thorough: 20000) of real daemons on private ports with 2-8 racing client threads.",
   note="Part B samples OS schedules. Thorough also runs Part B under ThreadSanitizer (nightly, -Zbuild-std, 16 x 120 daemons) and under valgrind memcheck (8 x 25 daemons); every report block is a violation of X5; if the instrumented build cannot be made the part is recorded as not run and decides nothing. One known finding (residual send/exit race) in known_findings.json.",
   ref="§6 C14"),
  "C15": dict(
@@ -53,7 +53,7 @@ CLAIMS = {
   ref="§6 C15"),
  "C19": dict(
   technique="runtime trace monitor with attribution: every observed PTR/A/AAAA question is matched against the back-off chain of the running search, refresh marks computed from the delivered-record history, or a new-interface event; unexplained or missing queries are violations",
-  text="The search histories of C13 over 20 s and 2-3 virtual hours plus lone searches over three virtual days: each chain instant (start, +1 s, +2 s ... doubling to 3600 s, relative to the previous actual query) must produce its query on every interface and family (B1), gaps never exceed one hour (B3), and every other query for the same question needs a refresh mark (80/85/90/95 %) of a live cached record or an interface arrival (B2); an instance delivered in stages with nobody answering gets at most three follow-up rounds, at least half a second apart (B4); the questions one verify request causes come no more often than the doubling chain started at the request allows (B5).",
+  text="The search histories of C13 over 20 s and 2-3 virtual hours plus lone searches over three virtual days: each chain instant (start, +1 s, +2 s ... doubling to 3600 s, relative to the previous actual query) must produce its query on every interface and family (B1), gaps never exceed one hour (B3), and every other query for the same question needs a refresh mark (80/85/90/95 %) of a live cached record or an interface arrival (B2); a second browse whose receiver is dropped at once does not silence the running search; an instance delivered in stages with nobody answering gets at most three follow-up rounds, at least half a second apart (B4); the questions one verify request causes come no more often than the doubling chain started at the request allows (B5).",
   note="In the search workloads follow-up and verify questions are not attributed; the exemptions are judged by B4 on staged deliveries and by B5 on single verify requests.",
   ref="§6 C19"),
  "C03": dict(
@@ -62,18 +62,18 @@ CLAIMS = {
   note="Records keep one spelling and one cache-flush setting per identity. Same-instant deliveries are judged leniently (before/during). Trusts the history model (harness/src/model.rs).",
   ref="§6 C03"),
  "C04": dict(
-  technique="runtime trace monitor over enumerated delivery orders and packet splits: completeness instants computed from the delivered records, ServiceFound/ServiceResolved required at that very instant; follow-up questions timed on the simulated wire",
-  text="The 4-7 records of an instance in every order and every split into up to four packets (exhaustive for 4 records quick / 5 thorough, sampled beyond), answer or additional section, duplicates, foreign records, 1-3 instances, hostile labels, host names in another letter case, earlier searches of the type (browse / browse_cache, stopped or replaced) before the judged one; PTR-only deliveries with the daemon's follow-up questions answered on try 1/2/3/never: Found then Resolved at the instant the last needed record arrives (F1), follow-ups within 500 ms, 500 ms apart, at most three (F2) - also for an instance that was withdrawn or expired and comes back with a lone PTR, for services carrying an unbrowsed subtype and with PTR answers of other types around ours -, reported name is the registered one (F3).",
+  technique="runtime trace monitor over enumerated delivery orders and packet splits: completeness instants computed from the delivered records, ServiceFound/ServiceResolved required at that very instant; follow-up questions timed on the simulated wire; plus a real-socket race monitor (API calls vs datagrams) for the poller path the simulation bypasses",
+  text="The 4-7 records of an instance in every order and every split into up to four packets (exhaustive for 4 records quick / 5 thorough, sampled beyond), answer or additional section, duplicates, foreign records, 1-3 instances, hostile labels, host names in another letter case, earlier searches of the type (browse / browse_cache, stopped or replaced) before the judged one; PTR-only deliveries with the daemon's follow-up questions answered on try 1/2/3/never: Found then Resolved at the instant the last needed record arrives (F1), follow-ups within 500 ms, 500 ms apart, at most three (F2) - also for an instance that was withdrawn or expired and comes back with a lone PTR, for services carrying an unbrowsed subtype and with PTR answers of other types around ours -, reported name is the registered one (F3). Part R: one real daemon on a private port with a second thread issuing API calls while real announcements arrive (25 rounds quick, 200 thorough): what reached the socket is acted on without waiting for the next datagram.",
   note="No obligation for follow-up questions about names containing '.' or '\\' (re-encoded differently, see known findings of C08).",
   ref="§6 C04"),
  "C05": dict(
   technique="runtime trace monitor against the delivered-record history model: departure instants (goodbye + 1 s, PTR expiry, verify timeout) computed from the history, every ServiceRemoved and every departure judged both ways",
-  text="The browser scenarios of C03 with TTLs 1 s..4500 s, verify timeouts {0, 1, 400, 999, 1000, 1001, 1500, 2750 ms, 10 s, 1 h}, refresh queries answered or not, lossy deliveries, horizons 3 x largest TTL: instance names with capitals: each departure must produce exactly one ServiceRemoved on time (D2-D4) and each ServiceRemoved must be explained by a departure (D5), also when one of two interfaces the instance was learned on goes away (the scenarios of C18 part P).",
+  text="The browser scenarios of C03 with TTLs 1 s..4500 s, verify timeouts {0, 1, 400, 999, 1000, 1001, 1500, 2750 ms, 10 s, 1 h}, refresh queries answered or not, lossy deliveries, horizons 3 x largest TTL: instance names with capitals: each departure must produce exactly one ServiceRemoved on time (D2-D4) and each ServiceRemoved must be explained by a departure (D5), also when one of two interfaces the instance was learned on goes away (the scenarios of C18 part P) and when the search of another browsed type is stopped, replaced or started in between.",
   note="A removal up to one second before a record's expiry is accepted (the crate treats the last second of a record as gone).",
   ref="§6 C05"),
  "C06": dict(
   technique="runtime differential monitor against a responder reference model: for each injected query the response required by the statement is computed from the API history and compared with the daemon's egress of the iteration that consumed the query",
-  text="Thousands of responder scenarios (1-3 interfaces on differing subnets, v4/v6; 1-4 services with subtypes, shared hosts, upper-case letters; registered, re-registered, unregistered) with 10-39 queries each at any time, 1-8 questions among type/subtype/meta PTR, SRV, TXT, ANY, A/AAAA (case variants), foreign names, from port 5353 or an ephemeral port, over IPv4 or IPv6, with and without known answers, one scenario in six with a service renamed by a conflict (names in force read off its last announcement): record sets, values, link-local addresses only, destination, ID and question echo (Q1-Q6).",
+  text="Thousands of responder scenarios (1-3 interfaces on differing subnets, v4/v6; 1-4 services with subtypes, shared hosts, upper-case letters; registered, re-registered, unregistered) with 10-39 queries each at any time, 1-8 questions among type/subtype/meta PTR, SRV, TXT, ANY, A/AAAA (case variants), foreign names, from port 5353 or an ephemeral port, over IPv4 or IPv6, with and without known answers, with EDNS0 OPT or unknown-type additionals appended, instance names with capitals inside and outside ASCII, one scenario in six with a service renamed by a conflict (names in force read off its last announcement): record sets, values, link-local addresses only, destination, ID and question echo (Q1-Q6).",
   note="A query is judged only if nothing else was due at that instant and not within 400 ms of the end of probing.",
   ref="§6 C06"),
  "C08": dict(
@@ -88,7 +88,7 @@ CLAIMS = {
   ref="§6 C09"),
  "C10": dict(
   technique="runtime monitor on both sides: responder reference model with known answers around the half-TTL boundary; every query of a browsing daemon parsed and its known answers checked against the delivered-record history",
-  text="Responder: the C06 scenarios with 1-4 known answers per query drawn from the responder's own records with TTL in {0, 1, half-1, half, half+1, full, 2^32-1}, near misses (other RDATA, class, case), with/without cache-flush bit (K1, K2); what only a suppressed answer would have brought must stay out of the additional section (K2-additionals). Querier: a PTR of TTL {4, 10, 20, 120} s cached, the type browsed again at every age 0-100 % in 1 % steps and every 20 ms within 1.2 s of half life; every later query parsed: only shared records held with at least half their life left (K3), written with the remaining TTL (K4), on every interface and family (K5).",
+  text="Responder: the C06 scenarios with 1-4 known answers per query drawn from the responder's own records with TTL in {0, 1, half-1, half, half+1, full, 2^32-1}, near misses (other RDATA, class, case), with/without cache-flush bit (K1, K2); what only a suppressed answer would have brought must stay out of the additional section (K2-additionals); near misses include a CNAME with the PTR's owner and target. Querier: a PTR of TTL {4, 10, 20, 120} s cached, the type browsed again at every age 0-100 % in 1 % steps and every 20 ms within 1.2 s of half life; every later query parsed: only shared records held with at least half their life left (K3), written with the remaining TTL (K4), on every interface and family (K5).",
   note="Ages within one second of the half life may or may not be listed; case-only matches may or may not suppress.",
   ref="§6 C10"),
  "C17": dict(
